@@ -74,7 +74,7 @@ def run_entry(entry, tier='quick'):
             r = subprocess.run([sys.executable, '-B', '-m', 'sa.cli', p, '--tier', tier], cwd=VERIF, env=env,
                                capture_output=True, text=True)
             rules = sorted(set(ln.split()[0] for ln in r.stdout.splitlines()
-                               if ln.startswith('  ') and not ln.startswith('   ') and len(ln.split()) > 2 and ':' in ln.split()[1]))
+                               if ln.startswith('  ') and not ln.startswith('   ') and len(ln.split()) > 3 and ln.split()[2] == 'in'))
             results[p] = dict(rc=r.returncode, rules=rules, out=r.stdout[-1500:] if r.returncode == 2 else '')
         main = results[entry['property']]
         if entry['expect'] == 'violation':
